@@ -940,4 +940,63 @@ def rule_pure(ctx):
     return r
 
 
-RULES = [rule_layout, rule_perm, rule_single, rule_axes, rule_memo, rule_exec, rule_pure]
+def rule_plandep(ctx):
+    """(seed C11_6) A plan is computed from the equation and the shapes.  Every exit of a planner that hands back a
+    plan hands back one whose elements derive (def-use) from the output part of the equation — the layout the result
+    must have: a constant plan ('just multiply') returned early for a whole class of equations (a rank-0 operand, say)
+    cannot transpose, sum or take a diagonal of the other operand, which the output may still require."""
+    r = RuleResult("C11-PLANDEP", "every plan a planner returns derives from the equation's output", 3)
+    for name in (PLAN, "_parse_einsum_single", "_parse_eq_to_pure_multiplication", "_parse_tensordot_axes_to_matmul"):
+        f = ctx.p.func(C.CONTRACT, name)
+        if f is None:
+            continue
+        fl = ctx.flow(f)
+        # names carrying the wanted layout: the last target of a split on '->' / of _sanitize_equation, or the
+        # parameter named like an output
+        outs = set()
+        for n in walk_local(f.node):
+            if isinstance(n, ast.Assign) and isinstance(n.targets[0], ast.Tuple) and isinstance(n.value, ast.Call):
+                fn = n.value.func
+                names = [getattr(e, "id", None) for e in n.targets[0].elts]
+                if (isinstance(fn, ast.Attribute) and fn.attr == "split" and n.value.args and isinstance(n.value.args[0], ast.Constant)
+                        and n.value.args[0].value == "->") or dotted(fn) == "_sanitize_equation":
+                    outs.add(names[-1])
+        params = [a.arg for a in f.node.args.args]
+        outs |= {p_ for p_ in params if p_ in ("out", "output")}
+        wanted_params = {"eq"} if not outs else set()
+        if name == "_parse_tensordot_axes_to_matmul":
+            wanted_params = {params[0]}
+        rets = [n for n in fl.returns() if n.ast.value is not None]
+        C.require(rets, f"{name}: no return")
+        for i, n in enumerate(sorted(rets, key=lambda x: x.ast.lineno)):
+            k = ctx.key(f, "C11-PLANDEP", f"return#{i}")
+            v = n.ast.value
+            names_in = {x.id for x in ast.walk(v) if isinstance(x, ast.Name)}
+            d = fl.deps(v, n.id, "may")
+            dep_params = {x[1] for x in d if x[0] == "param"}
+            # reaching definitions of the names in the plan, transitively, mention an output-carrying name
+            seen, work, via_out = set(), list(names_in), bool(names_in & outs)
+            while work and not via_out:
+                nm = work.pop()
+                if nm in seen:
+                    continue
+                seen.add(nm)
+                for dd in fl.defs_reaching(nm, n.id):
+                    if dd.value is None:
+                        continue
+                    inner = {x.id for x in ast.walk(dd.value) if isinstance(x, ast.Name)}
+                    if inner & outs:
+                        via_out = True
+                    work += list(inner - seen)
+            ok = via_out or bool(dep_params & wanted_params)
+            if ok:
+                r.ok(k, C.loc(f, n.ast), "the returned plan derives from the wanted layout")
+            else:
+                g = [C.unparse(i_.test, 50) for i_, t in C.enclosing_ifs(f, n.ast)]
+                r.violation(k, C.loc(f, n.ast), f"`{C.unparse(n.ast, 70)}`" + (f" under `{g[0]}`" if g else "") + " does not derive from the "
+                            "equation's output: for every equation taking this exit the same plan is executed, whatever order, sum or "
+                            "diagonal the output asks of the operands")
+    return r
+
+
+RULES = [rule_plandep, rule_layout, rule_perm, rule_single, rule_axes, rule_memo, rule_exec, rule_pure]
